@@ -222,7 +222,16 @@ def r2(ctx):
         ctx.check('R2', '%s:ESTABLISHED+SHUTTING_DOWN-releases-all' % nm, not miss2, d,
                   'disconnect (ESTABLISHED) followed by the final unref (SHUTTING_DOWN) releases everything',
                   'a dead client\'s resources survive its teardown: %s (descriptor / shared-memory file / directory leak per dead client)' % sorted(miss2))
-        dbl = [r for r in once[nm] if got2.count(r) > 1 or got.count(r) > 1]
+        # a ring closed through qb_rb_lastref_and_ret(&field) is closed at most once whatever the states say: the helper takes the
+        # pointer out of the field (NULL) and a NULL ring is not closed again
+        idem = set()
+        for ev in d.events('CALL'):
+            if ev.callee in ('qb_rb_close', 'qb_rb_force_close') and callee_of(unwrap(ev.args[0])) == 'qb_rb_lastref_and_ret':
+                idem.add(_res_id(ev))
+        for ev in d.events('CALL'):
+            if ev.callee in ('qb_rb_close', 'qb_rb_force_close') and callee_of(unwrap(ev.args[0])) != 'qb_rb_lastref_and_ret':
+                idem.discard(_res_id(ev))
+        dbl = [r for r in once[nm] if (got2.count(r) > 1 or got.count(r) > 1) and r not in idem]
         ctx.check('R2', '%s:nothing-released-twice' % nm, not dbl, d, 'no resource is released twice along a life cycle',
                   'released twice along a life cycle: %s (double close hits a descriptor that may have been reused)' % sorted(dbl))
         ctx.check('R2', '%s:INACTIVE-releases-nothing-owned' % nm, not (set(per[INACTIVE]) & once[nm]), d, 'an INACTIVE connection owns no channel resources',
